@@ -107,6 +107,30 @@ def do_build(c):
     return top
 
 
+def do_empty(c):
+    """utils.empty on the raw text and on the whitespace-cleaned text, and what Generator._get_file returns for a template
+    that renders to exactly that text under that file name (the real method, on a stand-in self)."""
+    from gapic import utils
+    from gapic.generator import formatter
+    from gapic.generator.generator import Generator
+    fn, raw = c["fn"], c["raw"]
+
+    class _Tpl:
+        def render(self, **kw):
+            return raw
+
+    me = types.SimpleNamespace(_get_filename=lambda template_name, api_schema=None, context=None: fn,
+                               _env=types.SimpleNamespace(get_template=lambda name: _Tpl()))
+    try:
+        got = Generator._get_file(me, "x.j2", opts=None, api_schema=None)
+    except Exception as e:  # noqa
+        return {"error": type(e).__name__ + ":" + str(e)[:80]}
+    names = sorted(got)
+    return {"empty_raw": bool(utils.empty(raw)), "empty_fixed": bool(utils.empty(formatter.fix_whitespace(raw))),
+            "emitted": names == [fn], "names": names,
+            "content_is_fixed": (not names) or got[fn].content == formatter.fix_whitespace(raw)}
+
+
 def main():
     payload = json.load(sys.stdin)
     from gapic.utils import to_snake_case, to_valid_module_name, to_valid_filename
@@ -114,6 +138,7 @@ def main():
            "naming": [do_naming(c) for c in payload.get("naming", [])],
            "filename": [do_filename(c) for c in payload.get("filename", [])],
            "build": [do_build(c) for c in payload.get("build", [])],
+           "empty": [do_empty(c) for c in payload.get("empty", [])],
            "snake": [to_snake_case(s) for s in payload.get("strings", [])],
            "valid_module": [to_valid_module_name(s) for s in payload.get("strings", [])],
            "valid_filename": [to_valid_filename(s) for s in payload.get("strings", [])]}
